@@ -1,4 +1,5 @@
 import Pose.Model.Lie
+import Pose.Model.Batch
 /-!
 # Tangent-space operations of `lietensor.py` that are not in `Model/Lie.lean` (property C05)
 
@@ -45,5 +46,56 @@ def algAdd (x o : List α) : Option (List α) :=
 
 /-- `SO3Type.Jr` : `X.Log().Jr()` -/
 def SO3Jr (eps : α) (X : Quat α) : Mat3 α := so3Jr eps (SO3Log eps X)
+
+
+/-! ## One dispatch for every spelling of `+` on group elements (batched, with broadcasting)
+
+```
+X + o, X.add(o, alpha), pp.add(X, o, alpha)   -> LieTensor.add :  shape = broadcast_shapes(X.lshape, o.lshape)
+                                                  X.expand(shape).clone().add_(alpha * o)
+X.add_(o, alpha), pp.add_(X, o, alpha)        -> ltype.add_    :  X.copy_(Exp((alpha*o)[..., :m]) * X)      (copy_ needs the product's
+                                                                                                          shape to be X's own shape)
+X.Retr(a), pp.Retr(X, a)                      -> a.Exp() * X   :  a an algebra LieTensor (width exactly m, no alpha)
+```
+`retr l x` is the item-level `Exp(l[:m]) · x` (total; the width test is made once for the whole tensor, like `Exp` does). -/
+
+inductive AddSpelling
+  | plus | add | ppAdd          -- out of place
+  | addInplace | ppAddInplace   -- in place
+  | retr | ppRetr               -- `a.Exp() * X`
+deriving Repr, DecidableEq, Inhabited
+
+def AddSpelling.inplace : AddSpelling → Bool
+  | .addInplace | .ppAddInplace => true
+  | _ => false
+def AddSpelling.isRetr : AddSpelling → Bool
+  | .retr | .ppRetr => true
+  | _ => false
+
+/-- outcome of a call: the result batch, or the kind of error the code raises -/
+inductive AddError | short | wide | broadcast | inplaceShape
+deriving Repr, DecidableEq, Inhabited
+
+open Batch in
+/-- every spelling of `X + o`: `m` manifold dimension, `d` group dimension, `w` last extent of `o` -/
+def lieAdd {G : Type} (m d : Nat) (retr : List α → G → G) (sp : AddSpelling) (alpha : α)
+    (x : T G) (o : T (List α)) (w : Nat) : Except AddError (Out G) :=
+  if w < m then .error .short                       -- `LieTensor(other[..., :m], ltype=alg).Exp()` on too few components
+  else if sp.isRetr && w ≠ m then .error .wide       -- `Retr` takes an algebra LieTensor: exactly `m` components
+  else
+    let a : T (List α) := ⟨o.shape, fun k => if sp.isRetr then o.data k else scaleList alpha (o.data k)⟩
+    if sp.isRetr then
+      match binop retr d d a x with                   -- `a.Exp() * X` : the `Mul` op site
+      | none => .error .broadcast
+      | some r => .ok r
+    else
+      match addOp retr d x a with                     -- `LieTensor.add` (C06's model of expand / clone / add_)
+      | none => .error .broadcast
+      | some r => if sp.inplace && r.shape ≠ x.shape then .error .inplaceShape else .ok r
+
+def SO3retrItem (eps : α) (l : List α) (X : Quat α) : Quat α := SO3Retr eps X (so3.ofList (l.take 3))
+def SE3retrItem (eps : α) (l : List α) (X : SE3 α) : SE3 α := SE3Retr eps X (se3.ofList (l.take 6))
+def RxSO3retrItem (eps : α) (l : List α) (X : RxSO3 α) : RxSO3 α := RxSO3Retr eps X (rxso3.ofList (l.take 4))
+def Sim3retrItem (eps : α) (l : List α) (X : Sim3 α) : Sim3 α := Sim3Retr eps X (sim3.ofList (l.take 7))
 
 end PP
